@@ -72,8 +72,10 @@ type shared struct {
 	subK, subR    graph.Subgraph
 }
 
+// padF and padI copy a slice into a buffer whose spare capacity is more than twice the
+// length: code that "copies" with append(x, y...) or x[len(x):] lands inside it.
 func padF(xs []float64) []float64 {
-	out := make([]float64, len(xs), len(xs)+4)
+	out := make([]float64, len(xs), 3*len(xs)+4)
 	copy(out, xs)
 	full := out[:cap(out)]
 	for i := len(xs); i < len(full); i++ {
@@ -83,7 +85,7 @@ func padF(xs []float64) []float64 {
 }
 
 func padI(xs []int) []int {
-	out := make([]int, len(xs), len(xs)+4)
+	out := make([]int, len(xs), 3*len(xs)+4)
 	copy(out, xs)
 	full := out[:cap(out)]
 	for i := len(xs); i < len(full); i++ {
@@ -259,6 +261,18 @@ func registry() []entry {
 	add("PairedTTest", func(s *shared) string { return tt(stats.PairedTTest(s.x1, s.x2, 0.5, stats.LocationGreater)) })
 	add("OneSampleTTest", func(s *shared) string {
 		return tt(stats.OneSampleTTest(stats.Sample{Xs: s.x1}, 1, stats.LocationDiffers))
+	})
+	add("QuantileCI normal branch", func(s *shared) string {
+		var b strings.Builder
+		// two confidence levels and sizes above the exact-method threshold in one entry
+		for _, n := range []int{31, 64 + s.in.Cnt} {
+			for _, c := range []float64{0.9, 0.99, 0.5 + s.in.Q/4} {
+				r := stats.QuantileCI(n, s.in.Q, c)
+				fmt.Fprint(&b, r.LoOrder, r.HiOrder, r.Ambiguous)
+				b.WriteString(fb(r.Confidence))
+			}
+		}
+		return b.String()
 	})
 	add("QuantileCI/SampleCI", func(s *shared) string {
 		r := stats.QuantileCI(len(s.x1), s.in.Q, 0.9)
